@@ -4,6 +4,7 @@ import (
 	"bytes"
 	"encoding/json"
 	"fmt"
+	markettypes "github.com/regen-network/regen-ledger/x/ecocredit/v3/marketplace/types/v1"
 	"os"
 	"os/exec"
 	"runtime"
@@ -29,11 +30,13 @@ import (
 
 func c10Alphabet(tier string) []*explore.Action {
 	e10 := chain.T0.Add(10 * time.Second)
-	buy := scen.Msg("BuyDirect(D,order1,0.5)", scen.MkBuyMsg(scen.D, 1, "0.5", sdk.NewInt64Coin("uregen", 3), true))
+	buy := scen.Msg("BuyDirect(D,order1,0.5,no-max-fee)!", scen.MkBuyMsg(scen.D, 1, "0.5", sdk.NewInt64Coin("uregen", 3), true)) // fails: the buyer fee is not covered
+	buyOK := scen.MkBuyMsg(scen.D, 1, "0.5", sdk.NewInt64Coin("uregen", 3), true).(*markettypes.MsgBuyDirect)
+	buyOK.Orders[0].MaxFeeAmount = &sdk.Coin{Denom: "uregen", Amount: sdk.NewInt(5)}
 	a := []*explore.Action{
 		scen.Msg("CreateClass(D,fee=20)", &basetypes.MsgCreateClass{Admin: scen.D.String(), Issuers: []string{scen.D.String()}, Metadata: "m", CreditTypeAbbrev: "C", Fee: &sdk.Coin{Denom: "uregen", Amount: sdk.NewInt(20)}}),
 		scen.SendN(scen.B, scen.C, scen.SC(scen.B1, "1.5", "0.25"), scen.SC(scen.B2, "1", "0")),
-		scen.Send(scen.B, scen.C, scen.B1, "1000", "0"),                            // fails: overdraw
+		scen.Msg("BuyDirect(D,order1,0.5,max-fee=5)", buyOK),
 		scen.Put(scen.B, scen.KYR, scen.BC(scen.B1, "1"), scen.BC(scen.B2, "0.5")), // b2 starts exactly on the basket's year boundary
 		scen.Sell(scen.B, scen.B1, "0.5", sdk.NewInt64Coin("uregen", 5), true, &e10),
 		buy,
